@@ -125,6 +125,11 @@ class Trajectories:
         hist = {k: v for k, v in HISTORIES.items() if not v.get("fixed")}
         hist["added-level-needs-no-sample"] = dict(initial_level=2, maximum_level=5, initial_mc_paths=5, plans=(([5, 5, 5, 0], False), ([5, 5, 5, 0], False)))
         hist["never-converges"] = dict(initial_level=2, maximum_level=4, initial_mc_paths=3, plans=(([3], False), ([4], False), ([4], False), ([5], False), ([5], False)))
+        # a small level short by more than 1 % of ITS OWN size while the total shortfall is below 1 % of the total
+        hist["one-level-short-by-more-than-1-percent-of-itself"] = dict(initial_level=2, maximum_level=4, initial_mc_paths=200,
+                                                                          plans=(([200, 200, 204], True), ([200, 200, 204], True)))
+        hist["short-level-then-new-level"] = dict(initial_level=2, maximum_level=3, initial_mc_paths=100,
+                                                    plans=(([100, 100, 103], False), ([100, 100, 103, 6], False), ([100, 100, 103, 6], True)))
         ev, viol, samples = 0, {}, []
         for hname, kw in hist.items():
             ev += 1
